@@ -2295,6 +2295,9 @@ Box<ITV>::remove_higher_space_dimensions(const dimension_type new_dimension) {
     return;
   }
 
+  // The emptiness of the box has to be detected before dropping
+  // the intervals that may be the only witnesses of it.
+  (void) is_empty();
   seq.resize(new_dimension);
   PPL_ASSERT(OK());
 }
